@@ -31,8 +31,8 @@ def make_state(sd):
     if 'name' in sd:
         return create_polarization(sd['name'])
     Ex, Ey = sd['Ex'], sd['Ey']
-    if Ex == 0 and Ey == 0:
-        Ex = 1.0
+    if math.hypot(Ex, Ey) < 1e-3:
+        Ex = 1.0          # "no field" (amplitudes whose squares underflow) is not a polarization state
     return PolarizationState(True, Ex=Ex, Ey=Ey, phase_x=sd['px'], phase_y=sd['py'])
 
 
@@ -72,7 +72,7 @@ class C17(Check):
                    'trace clauses at 1e-7: the s-vector of nearly undeviated rays is only defined to ~1e-8']
 
     def budget(self, tier):
-        return (150, 8) if tier == 'quick' else (3000, 16)
+        return (300, 8) if tier == 'quick' else (3000, 16)
 
     def strategy(self, tier):
         fres = st.fixed_dictionaries(dict(kind=st.just('fresnel'), n1=f(1.0, 4.0), n2=f(1.0, 4.0),
